@@ -121,7 +121,7 @@ fn cmd_run(args: &[String], scratch: &str) -> i32 {
         let scratch = scratch.to_string();
         handles.push(std::thread::spawn(move || loop {
             let i = next.fetch_add(1, Ordering::SeqCst);
-            if i >= to || t0.elapsed().as_secs() >= max_s {
+            if i >= to || t0.elapsed().as_secs() >= max_s || engine::HANGS.load(Ordering::Relaxed) >= 2 {
                 break;
             }
             let rs = rng::run_seed(seed, &engine, i);
@@ -305,6 +305,8 @@ fn cmd_minimise(args: &[String], scratch: &str) -> i32 {
     let t0 = Instant::now();
     let before: BTreeMap<String, usize> =
         engines::shrink_keys(&engine).iter().map(|k| (k.to_string(), case[*k].as_array().map(|a| a.len()).unwrap_or(0))).collect();
+    // a hang costs 30 s per execution: such a witness is kept as it is
+    let budget = if verdict.facets.get("kind").map(|k| k == "hang").unwrap_or(false) { 0 } else { budget };
     let (min, used) = minimise(&case, engines::shrink_keys(&engine), budget, |c| {
         if t0.elapsed().as_secs() > 90 {
             return false;
